@@ -736,4 +736,127 @@ theorem dvDeLoop_ok (items : List (Col × Cell)) : ∀ es,
           · rw [if_neg hn] at he
             exact hall it (List.mem_cons_of_mem _ hit) e he
 
+/-! ### `#[derive(DeserializeRow)]` by name = the UDT code with every excess column forbidden -/
+
+/-- row error names of the UDT error kinds -/
+def rowErrOf : Err → Err
+  | .dvDuplicatedField => .drDuplicatedColumn
+  | .dvFieldTypeCheckFailed => .drColumnTypeCheckFailed
+  | .dvExcessField => .drUnknownName
+  | .dvValuesMissing => .drValuesMissing
+  | .dvFieldDeserFailed => .drColumnDeserFailed
+  | e => e
+
+def mapErr {α : Type} (φ : Err → Err) : Except Err α → Except Err α
+  | .ok a => .ok a
+  | .error e => .error (φ e)
+
+theorem mapErr_ok_iff {α : Type} (φ : Err → Err) (r : Except Err α) (a : α) :
+    mapErr φ r = .ok a ↔ r = .ok a := by
+  cases r <;> simp [mapErr]
+
+theorem mem_markE_f {n : String} {es : List Entry} {e : Entry} (h : e ∈ markE n es) :
+    ∃ e0 ∈ es, e.f = e0.f := by
+  have : e.f ∈ (markE n es).map (fun e => e.f) := List.mem_map_of_mem h
+  rw [markE_f] at this
+  obtain ⟨e0, h0, h1⟩ := List.mem_map.mp this
+  exact ⟨e0, h0, h1.symm⟩
+
+theorem drTcLoop_eq (db : List Col) : ∀ (es : List Entry) (rem : Nat),
+    (∀ e ∈ es, e.f.required = true) →
+    drTcLoop db es rem = mapErr rowErrOf (dvTcLoop true db es rem) := by
+  induction db with
+  | nil => intro es rem _; rfl
+  | cons c cs ih =>
+    intro es rem hreq
+    unfold drTcLoop dvTcLoop
+    cases hl : lookupE c.name es with
+    | none => rfl
+    | some e =>
+      simp only []
+      by_cases hv : e.visited = true
+      · simp [hv, mapErr, rowErrOf]
+      · simp only [hv, Bool.false_eq_true, if_false]
+        by_cases ht : (e.f.ty != c.ty) = true
+        · simp [ht, mapErr, rowErrOf]
+        · simp only [ht, Bool.false_eq_true, if_false, hreq e (lookupE_some hl).2, if_true]
+          apply ih
+          intro e' he'
+          obtain ⟨e0, h0, h1⟩ := mem_markE_f he'
+          rw [h1]; exact hreq e0 h0
+
+theorem drDeLoop_eq (items : List (Col × Cell)) : ∀ (es : List Entry),
+    (∀ it ∈ items, (lookupE it.1.name es).isSome = true) →
+    drDeLoop (items.map (fun it => (it.1, some it.2))) es = mapErr rowErrOf (dvDeLoop items es) := by
+  induction items with
+  | nil => intro es _; rfl
+  | cons a rest ih =>
+    intro es hall
+    obtain ⟨c, value⟩ := a
+    simp only [List.map_cons]
+    unfold drDeLoop dvDeLoop
+    cases hl : lookupE c.name es with
+    | none =>
+      have := hall (c, value) (List.mem_cons_self ..)
+      simp [hl] at this
+    | some e =>
+      simp only []
+      by_cases hv : e.visited = true
+      · simp [hv, mapErr, rowErrOf]
+      · simp only [hv, Bool.false_eq_true, if_false]
+        cases hd : deValD e.f value with
+        | none => simp [mapErr, rowErrOf]
+        | some v =>
+          simp only []
+          apply ih
+          intro it hit
+          rw [lookupE_setV]
+          split
+          · rename_i h; rw [h, hl]; rfl
+          · exact hall it (List.mem_cons_of_mem _ hit)
+
+theorem drFinalize_eq (es : List Entry) (fields : List Field) (h : ∀ f ∈ fields, f.allowMissing = false) :
+    drFinalize es fields = dvFinalize es fields := by
+  induction fields with
+  | nil => rfl
+  | cons f fs ih =>
+    unfold drFinalize dvFinalize
+    rw [ih (fun g hg => h g (List.mem_cons_of_mem _ hg))]
+    have ha := h f (List.mem_cons_self ..)
+    simp [ha]
+
+theorem rowItems_eq (db : List Col) : ∀ (cells : List Cell), db.length ≤ cells.length →
+    rowItems db cells = (udtItems db cells).map (fun it => (it.1, some it.2)) := by
+  induction db with
+  | nil => intro cells _; rfl
+  | cons c cs ih =>
+    intro cells h
+    cases cells with
+    | nil => simp at h
+    | cons x xs =>
+      simp only [rowItems, udtItems, List.map_cons]
+      rw [ih xs (by simpa using h)]
+
+/-- `dvFinalize` succeeds only if every non-skipped field has an entry -/
+theorem dvFinalize_ok_lookup (es : List Entry) (fields : List Field) (vs : List Val)
+    (h : dvFinalize es fields = .ok vs) : ∀ f ∈ fields, f.skip = false → (lookupE f.col es).isSome = true := by
+  induction fields generalizing vs with
+  | nil => intro f hf; cases hf
+  | cons g gs ih =>
+    intro f hf hs
+    unfold dvFinalize at h
+    simp only [] at h
+    split at h
+    · cases h
+    · rename_i v hhead
+      split at h
+      · cases h
+      · rename_i vs' hr
+        rcases List.mem_cons.mp hf with rfl | hin
+        · simp only [hs, Bool.false_eq_true, if_false] at hhead
+          cases hl : lookupE f.col es with
+          | some e => rfl
+          | none => simp [hl] at hhead
+        · exact ih vs' hr f hin hs
+
 end ScyllaVerif.Derive
